@@ -17,6 +17,7 @@ import (
 var publicCalls int
 
 func publicParse(max uint64, input string) (ans string) {
+	defer enter(fmt.Sprintf("parse %d %s", max, hx(input)), "C10", "C11", "C15", "C16", "C20", "C06", "C07")()
 	defer func() {
 		if r := recover(); r != nil {
 			ans = "PANIC " + fmt.Sprint(r)
@@ -37,6 +38,7 @@ func publicParse(max uint64, input string) (ans string) {
 }
 
 func hookParse(max uint64, input string) (ans string) {
+	defer enter(fmt.Sprintf("parse %d %s", max, hx(input)), "C10", "C11", "C15", "C16", "C20", "C06", "C07")()
 	defer func() {
 		if r := recover(); r != nil {
 			ans = "PANIC " + fmt.Sprint(r)
